@@ -20,9 +20,36 @@ def run(ctx, rep):
     rep.explanation = EXPLANATION
     rep.assumptions = ["enum discriminants and constant operands as evaluated by rustc"]
     table(ctx, rep)
+    plain_decoding(ctx, rep)
     for impl in net.impls_present(ctx):
         loop_rules(ctx, rep, impl)
     rep.floor("R7.2", 5 * len(net.impls_present(ctx)))
+
+
+def plain_decoding(ctx, rep):
+    """R7.3: the two fields maybe_pong tests are what was on the wire: IS_TINY's `reqi` and `subt` are read by the plain derived
+    reader - no read-side directive that can substitute a value (`try`, `default`, `map`, `if`, `ignore`, `calc`, `parse_with` ..):
+    with `try` an unknown sub-type byte would silently become the default variant NONE and be answered as a keep-alive."""
+    try:
+        lay = ctx.wire.layout("Tiny", None, "insim::insim::tiny")
+    except Exception as ex:
+        rep.fail("R7.3", "Tiny:layout", "layout of IS_TINY not available (%s)" % ex)
+        return
+    ent = lay.get("ent")
+    if ent is None:
+        rep.fail("R7.3", "Tiny:found", "struct Tiny not found")
+        return
+    names = {fi["name"] for fi in lay["fields"]}
+    rep.check("R7.3", "Tiny:fields", {"reqi", "subt"} <= names, "IS_TINY must have the fields reqi and subt (found %s)" % sorted(names), ctx.loc(ent), nontrivial=False)
+    structural = {"pad_before", "pad_after", "align_before", "align_after", "little", "big", "magic", "assert", "dbg"}
+    for fi in lay["fields"]:
+        if fi["name"] not in ("reqi", "subt"):
+            continue
+        extra = sorted(set(fi["dirs"]["read"].keys()) - structural)
+        rep.check("R7.3", "Tiny.%s:plain-read" % fi["name"], not extra,
+                  "IS_TINY.%s is read with %s: the value maybe_pong tests would no longer be the byte that was received" % (fi["name"], extra), ctx.loc(ent, fi["ln"]),
+                  sample={"field": fi["name"], "read_directives": sorted(fi["dirs"]["read"].keys())})
+    rep.floor("R7.3", 2)
 
 
 def table(ctx, rep):
